@@ -20,13 +20,13 @@ CLAIMS = {
          "TLC action property + trace validation (functional)"),
  "C06": ("model_checking", "operational plan semantics (spec/Hfsm.tla UpdatePlan/DeepUpdatePlans) validated step by step against the executor: plan callbacks, task lists, success/failure marks, requests issued by plans; open finding D9 handled by a deviation switch", "4 C06",
          "resynchronising trace validation (functional oracle) with deviation switch"),
- "C07": ("model_checking", "plans as per-region task sequences under a machine-wide capacity (spec/Hfsm.tla ApplyOp plan_append/plan_clear/plan_remove/plan_sweep): the iterated contents, the results of append (refused at capacity, nothing changes), removal during iteration and clearing are compared step by step with the executor; TLA+ monitors (spec/Trace.tla PlanStorage) walk the raw taskBounds/taskLinks/tasks arrays read through the probe: acyclic doubly linked lists inside the pool, slot contents = iteration, pairwise disjoint, lengths adding up to tasks.count(), unlinked slots clean", "4 C07",
+ "C07": ("model_checking", "plans as per-region task sequences under a machine-wide capacity (spec/Hfsm.tla ApplyOp plan_append/plan_clear/plan_remove/plan_sweep): the iterated contents, the results of append (refused at capacity, nothing changes), removal during iteration and clearing are compared step by step with the executor; TLA+ monitors (spec/Trace.tla PlanStorage) walk the raw taskBounds/taskLinks/tasks arrays read through the probe: acyclic doubly linked lists inside the pool, slot contents = iteration, pairwise disjoint, lengths adding up to tasks.count(), unlinked slots clean; scripted storage scenarios (removal of the last / first / a middle task followed by appends, refill past capacity) besides the random plan operations", "4 C07",
          "resynchronising trace validation (functional oracle) + storage monitors"),
  "C09": ("model_checking", "action property P_Replay on the bounded models (TLC BFS: the history a processing step recorded, replayed on its pre-state, reproduces the step's configuration for every reachable state x call x callback script, whatever rounds / vetoes / substitutions the step took) + functional equality of previousTransitions and transition targets of every executed step with the operational specification, replica walks (mon.replay.*)", "4 C09",
          "TLC action property + resynchronising trace validation (functional oracle + replica monitors)"),
  "C13": ("model_checking", "invariant ResumeNamed on the bounded models (TLC BFS: in every reachable state, for every destination, a resume activates in each region it enters the sub-state isResumable named - at most one per region - else the first) + functional equality of isActive/activeSubState/isResumable/isScheduled/isPending* answers after every call and inside guards, plus idle and resume monitors; open finding D10", "4 C13",
          "TLC invariant + trace validation (functional + monitors)"),
- "C14": ("model_checking", "payload tokens in pending/current/previous transitions compared field by field with the operational specification for int / 32-byte over-aligned / 3-byte payload types", "4 C14",
+ "C14": ("model_checking", "payload tokens in pending/current/previous transitions compared field by field with the operational specification for int / 32-byte over-aligned / 3-byte payload types; monitors mon.payload.* (a payload that should be seen by a guard, a lifecycle callback, in previousTransitions and through lastTransitionTo of every state)", "4 C14",
          "resynchronising trace validation (functional oracle on payload projections)"),
  "C08": ("model_checking", "invariant RoundTrip + action properties P_Load / P_SaveUntouched on the save/load pair model (every reachable configuration x every buffer saved in another one); on the code: save() compared bit for bit with Encode of the specification, load() of buffers saved in unrelated configurations judged against the decoded buffer (active, resumable, exit/enter sets)", "4 C08",
          "TLC invariant/action property on pair model + trace validation (functional + monitors)"),
